@@ -1,4 +1,4 @@
-import DnpProofs.Lemmas.Consistent
+import DnpProofs.Lemmas.Consistent2
 set_option linter.unusedSectionVars false
 /-!
 # C10 — NumPy functions on data objects agree with NumPy and keep the labels
@@ -102,5 +102,22 @@ theorem reduce_bad_axis (d : Data κ α) (n : String) (f : List α → α) :
   refine ⟨fun s hs => ?_, fun i hi => ?_⟩
   · unfold npReduce; simp only; rw [if_pos hs]
   · unfold npReduce; simp only; rw [if_pos hi]
+
+/-- tuple-valued axis (names and positions mixed, any order): the object returned has lost EXACTLY the named /
+    positioned dimensions with their coordinates, the others keep order and coordinates, whatever the rank -/
+theorem reduce_tuple_labels (n : String) (f : List α → α) {d r : Data κ α} {items : List AxItem} (h : d.Consistent)
+    (hr : d.npReduce n f (.tuple items) = .ok (.inl r)) :
+    ∃ names, resolveItems d.dims items = .ok names ∧ names.Nodup ∧ (∀ x ∈ names, x ∈ d.dims) ∧
+      r.Consistent ∧ r.dims = d.dims.filter (fun x => x ∉ names) ∧
+      r.coords = (d.dims.filter (fun x => x ∉ names)).map d.coord := by
+  obtain ⟨names, h1, h2, h3, h4, h5, h6, _⟩ := npReduce_tuple_spec n f h hr
+  exact ⟨names, h1, h2, h3, h4, h5, h6⟩
+
+/-- a repeated dimension in the tuple (by name and by position, say) raises like NumPy does -/
+theorem reduce_tuple_duplicate (n : String) (f : List α → α) (d : Data κ α) (items : List AxItem) (names : List String)
+    (hi : items ≠ []) (hres : resolveItems d.dims items = .ok names) (hdup : ¬ names.Nodup) :
+    d.npReduce n f (.tuple items) = .error .value := by
+  unfold npReduce
+  simp only [hi, if_false, bind, Except.bind, hres, hdup, not_false_eq_true, if_true]
 
 end Dnp.C10
